@@ -84,7 +84,7 @@ ASSUMPTIONS = [
     'debugging aid: with C15_DEBUG=1 in the environment every failing (site, class tag) pair is additionally counted as '
     'a coverage class "dbg ..."; it changes no verdict',
 ]
-REQUIRED_CLASSES = ['number-types', 'ctor:NED', 'ctor:ENU', 'ctor:lat=0', 'ctor:lon=0', 'ctor:place=default', 'ctor:date=None',
+REQUIRED_CLASSES = ['number-types', 'op:refused-date', 'ctor:NED', 'ctor:ENU', 'ctor:lat=0', 'ctor:lon=0', 'ctor:place=default', 'ctor:date=None',
                     'ctor:date=day', 'ctor:date=decimal', 'ctor:seam-1e-3',
                     'op:field(date=decimal)', 'op:field(date=day)', 'op:field(date=omitted)',
                     'op:field(date=None) first evaluation after a load', 'op:field(date=None) on used coefficients',
@@ -177,6 +177,13 @@ def _apply(o, ev):
         o.reset_coefficients(_arg(ev[1]))
     elif ev[0] == 'read':
         getattr(o, ev[1])
+    elif ev[0] == 'refuse':
+        bad = float('nan') if ev[4] == 'nan' else (_REAL_DATE(2010, 6, 1) if ev[4] == 'day:2010-06-01' else ev[4])
+        try:
+            o.magnetic_field(ev[1], ev[2], ev[3], date=bad)
+            o.__dict__['_verif_refused'] = False
+        except (ValueError, TypeError):
+            o.__dict__['_verif_refused'] = True
     else:
         raise ValueError(ev)
 
@@ -197,6 +204,8 @@ def _canon_obj(o):
     h = hashlib.blake2b(digest_size=12)
     d = o.__dict__
     for k in sorted(d):
+        if k.startswith('_verif') or k in ('latitude', 'longitude', 'height'):
+            continue                # harness marker; the place of the last CALL (also stored by a refused call) is not what later answers depend on
         v = d[k]
         h.update(k.encode() + b'=')
         if isinstance(v, np.ndarray):
@@ -226,6 +235,7 @@ def mc_ops(ctx, hist):
             ops.append(['field', p[0], p[1], p[2], d])
     ops += [['reset', d] for d in (RESETS_T if ctx.thorough else RESETS)]
     ops += [['read', r] for r in READS]
+    ops += [['refuse', 10.0, 20.0, 0.0, bad] for bad in ((2012.5, 'nan', 'abc', 'day:2010-06-01') if ctx.thorough else (2012.5, 'nan'))]
     return ops
 
 
@@ -358,7 +368,7 @@ def mc_judge(ctx, hist, o, exc, src_id, dst_id):
         ctx.fail = lambda site, k, *a, **kw: (ctx.cls('dbg ' + site[:60] + ' || ' + str(k).split(' | ')[-1]), ctx._dbg(site, k, *a, **kw))[1]
     s = M.replay(hist)
     P = {'ctor': 'WMM(...)', 'field': 'magnetic_field on a used object', 'reset': 'reset_coefficients',
-         'read': 'reading a property'}[ev[0]]
+         'read': 'reading a property', 'refuse': 'magnetic_field with a refused date'}[ev[0]]
     if ev[0] in ('ctor', 'field'):
         ctx.seen(key)
     if src_id is not None and ev[0] != 'read' and dst_id is not None and dst_id == src_id:
@@ -395,6 +405,9 @@ def mc_judge(ctx, hist, o, exc, src_id, dst_id):
         return
     if ev[0] in ('ctor', 'field'):
         _judge_answer(ctx, P, key, o, s.query)
+    elif ev[0] == 'refuse':
+        ctx.cls('op:refused-date')
+        ctx.expect(o.__dict__.get('_verif_refused') is True, f'{P}: raises ValueError/TypeError', key, 'answered', 'refused')
     elif ev[0] == 'read':
         try:
             el = o.magnetic_elements
